@@ -339,7 +339,7 @@ func (fs *FS) rename(oldFile *file, oldname, newname string) error {
 		if err != nil {
 			_ = txn.Abort()
 		} else {
-			_, err = txn.Commit(context.Background())
+			err = commitTxn(txn)
 		}
 		return err
 	}
